@@ -165,4 +165,17 @@ META = {
                 "cache loss and refused imports. A torn import (crash between its two writes) is not asserted: the statement does not cover it",
         "technique": "deterministic simulation: seeded multi-store operation sequences with restart/cache-loss faults, cross-store invariants after every step",
     },
+    "C17": {
+        "text": "Seeded histories on the simulated clock with two real RotationInterval instances and two real head-exchange marshalers: "
+                "registrations in the same or different periods, clock advances placed within a period, exactly on, one second "
+                "before/after and several periods past a boundary and past the grace period, resolutions, exchanges of rotation "
+                "values and Marshal/Unmarshal between the peers. Oracles are relational: a registered topic always resolves to the "
+                "point of the period containing now with a deadline in the future; peers that resolved in the current period accept "
+                "each other's value and map it to the same topic; the previous own value is accepted during the grace period; "
+                "unknown topics and values of another seed are refused; the digest is deterministic and changes with topic, seed, period.",
+        "design_ref": "section 5, C17; appendix B.4",
+        "note": "hour- and day-long rotation intervals cost microseconds on the fake clock; no clock skew between the peers (one bubble, one clock); "
+                "the tinder swiper is not driven",
+        "technique": "deterministic simulation: seeded clock-advance/register/resolve/exchange histories on a simulated clock vs period model",
+    },
 }
